@@ -26,7 +26,7 @@ func init() {
 		Rule: "cases: the complete matrix operator (== != < > <= >= && || + - * / in empty has exists =~ match search, unary ! length count) x left operand kind x right operand kind, kinds = nil, false, true, int (0, 1, -1, 2^53+1, min, max), float (0, -0, 1.5, integral, huge), \"\", strings, " +
 			"empty/non-empty array, empty/non-empty object, Nothing (missing path), multi-valued path (0/1/many values), regex, list constant - each operand both as a constant and through an @-sub-path (the route that can deliver containers); random equation trees of depth <= 4; " +
 			"each evaluated by Script.Match on simple and gen elements, after re-parsing the printed text with NewScript and NewFilter, and as a filter fragment inside Get/First/Has/Locate/Walk/Modify/Remove/RemoveOne over simple and gen documents, also with the operands rooted at the document ($[0].x for @.x over the one-element document) and with the document operand first followed by deeper element operands. The boolean must equal S's, == and != must be complements for single-valued operands, Match(v) must equal membership of v in the filter's result, and nothing may panic. " +
-			"a filter with document-rooted operands is first handed other documents (an empty one, the element of the previous case), then the real one. non-trivial: every matrix cell and every random tree; distinct: matrix cells by construction, trees by digest",
+			"a filter with document-rooted operands is first handed other documents (an empty one, the element of the previous case), then the real one. every element is also evaluated with its homogeneous containers held as typed Go containers ([]string, []int, map[string]int, ...), for totality only. non-trivial: every matrix cell and every random tree; distinct: matrix cells by construction, trees by digest",
 		Assumptions: []string{
 			"cells the operator documentation leaves open (two containers compared, int overflow, division by zero, 'in' with a non-list, count) are don't-care for the value but still checked for totality, determinism and the ==/!= complement",
 			"S evaluates the constructed tree (precedence of the printed form is C14's business)",
